@@ -573,4 +573,9 @@ class ConnectModel(Unit):
 
 
 def units(tier):
-    return [Lifecycle(), ConnectModel()]
+    from . import c18
+    wd = c18.WrapperDelegation()
+    # after the login encryption step connection.socket / file_object are cipher wrappers: disconnect() reaches the real
+    # transport only if their close / shutdown delegate
+    wd.prop, wd.name = 'C16', 'C16.close-through-cipher-wrappers'
+    return [Lifecycle(), ConnectModel(), wd]
